@@ -22,7 +22,7 @@ struct Plan
   double raceJitterMs = 0; bool stallAtRace = false;
   // read-mode script (sessions with a raw plain peer): Sync, peer bytes buffered, optional partial receiveSync drain,
   // optional Disabled flip / live flush, then after the end: flush overlapping the close and/or after the close was seen
-  bool rm = false, rmPartialDrain = false, rmDisabledFlip = false, rmLiveFlush = false, rmOverlap = false; int rmAfter = 0;
+  bool rm = false, rmPartialDrain = false, rmDisabledFlip = false, rmLiveFlush = false, rmOverlap = false, rmLeaveDisabled = false; int rmAfter = 0;
   double estMs = 0;
 };
 
@@ -49,7 +49,7 @@ struct Run : Hist
   void actorRegs(uint64_t sid, const Plan &p, vf::Rng &r)
   {
     std::vector<ObsRec *> mine;
-    for (int i = 0; i < p.actObs; i++) { mine.push_back(addObserver(sid, RC_ACTOR, p.seed * 17 + uint64_t(i))); if (r.chance(0.3)) sleepMs(double(r.below(3))); }
+    for (int i = 0; i < p.actObs; i++) { if (ObsRec *o = addObserver(sid, RC_ACTOR, p.seed * 17 + uint64_t(i))) mine.push_back(o); if (r.chance(0.3)) sleepMs(double(r.below(3))); }
     for (int j = 0; j < p.actUnobs && !mine.empty(); j++) tryUnobserve(mine[r.below(mine.size())], "actor");
     bool cbAgent = p.cb && p.cb->udCallbacks;
     if (p.actUd && !cbAgent) { setUserData(sid, RC_ACTOR); if (p.actUdReplace) setUserData(sid, RC_ACTOR); }
@@ -101,6 +101,7 @@ struct Run : Hist
       setMode(sid, ReadMode::Async); countL("readmode_live_flush_calls");
       if (r.chance(0.7)) { setMode(sid, ReadMode::Sync); sendPeer(8 + int(r.below(50))); sleepMs(10 + double(r.below(15))); }
     }
+    if (p.rmLeaveDisabled) { setMode(sid, ReadMode::Disabled); countL("readmode_left_disabled"); }
   }
   void readModeOverlap(uint64_t sid, const Plan &p, vf::Rng &r)
   {
